@@ -256,10 +256,17 @@ def jobs(tier):
            ("12345678_9abcdef1", "0x9ABCDEF1U", "0x12345678U"),
            ("ffffffff_ffffffff", "0xFFFFFFFFU", "0xFFFFFFFFU"),
            ("00000003_00000007", "0x00000007U", "0x00000003U")]
-    for tag, b0, b1 in (DVS if tier == "thorough" else DVS[:2]):
+    # b = 2^32 is decided (7 s) but degenerate (v2 = 0: the qhat corrections never fire).  For the other divisors the
+    # proof gives no result in 900 s, while a wrong quotient digit is FOUND in 1-2 min (seed C11-r2m2): they run as
+    # bounded-time refutation searches (kind "refute": a failure is a violation, no result is 'inconclusive', never counted)
+    for tag, b0, b1 in DVS:
+        decided = tag == "00000001_00000000"
+        if not decided and tier != "thorough" and tag not in ("80000000_ffffffff", "00000003_00000007"):
+            continue
         J("iint.iintDivide.identity.b_%s" % tag, "h_iintDivide_const", ["iintDivide", "iintTimesS", "bintLT"],
-          st("u") + st("v") + st("q") + st("r"), cls="B",
-          bound="dividend 2..3 digits (every value), divisor the constant 0x%s" % tag.replace("_", ""), unwind=UB, timeout=900, mem_gb=12,
+          st("u") + st("v") + st("q") + st("r"), cls="B", kind="obligation" if decided else "refute",
+          bound="dividend 2..3 digits (every value), divisor the constant 0x%s" % tag.replace("_", ""), unwind=UB,
+          timeout=600 if decided else (120 if tier != "thorough" else 400), mem_gb=12,
           defs=["-DDV_B0=" + b0, "-DDV_B1=" + b1])
     J("canary.iint.iintDivide", "h_iintDivide_const", ["iintDivide"], st("u") + st("v") + st("q") + st("r"), cls="B", kind="canary",
       unwind=UB + ["--stop-on-fail"], timeout=900, mem_gb=12, defs=["-DCANARY_iintDivide", "-DV_NO_VREACH"])
